@@ -12,22 +12,34 @@ open MpycV MpycV.Thresha MpycV.PyList
 
 /-- `random_split` of the current source (draws read from `stream`) = the model's `randomSplit` -/
 theorem random_split_src_eq (p : ℕ) [Fact p.Prime] (isField : Bool) (s : List Int) (t m : Int)
-    (stream : List Int) (hs : s ≠ []) (hlen : t.toNat * s.length ≤ stream.length)
+    (stream : List Int) (hs : s ≠ []) (hguard : t = 0 ∨ m < (p : Int))
+    (hlen : t.toNat * s.length ≤ stream.length)
     (hrange : ∀ v ∈ stream.take (t.toNat * s.length), 0 ≤ v ∧ v < (p : Int)) :
     ThreshaSrc.random_split p isField s t m stream
       = .ok (randomSplit (intModP p) s stream t.toNat m.toNat) := by
   rw [show @ThreshaSrc.random_split = @ThreshaMirror.random_split from rfl]
-  exact random_split_eq p isField s t m stream hs hlen hrange
+  exact random_split_eq p isField s t m stream hs hguard hlen hrange
+
+/-- … and the current source REFUSES to deal over a field with at most `m` elements when `t ≠ 0` (one party's evaluation
+point would be 0: its share would be the secret, `MpycV.C14.last_row_is_secret_when_m_eq_p`): the guard under which
+the uniformity statement holds is the guard the code enforces -/
+theorem random_split_src_refuses (p : ℕ) (isField : Bool) (s : List Int) (t m : Int) (stream : List Int)
+    (ht : t ≠ 0) (hm : (p : Int) ≤ m) :
+    ThreshaSrc.random_split p isField s t m stream = .error .valueError := by
+  unfold ThreshaSrc.random_split
+  simp -iota only []
+  rw [if_pos ⟨ht, hm⟩]
 
 /-- every share of the current source is `shareAt` of the model: the value of the secret's polynomial whose
 coefficients are the `t` stream values drawn for that secret -/
 theorem random_split_src_entry (p : ℕ) [Fact p.Prime] (isField : Bool) (s : List Int) (t : Int) (m : ℕ)
-    (stream : List Int) (hs : s ≠ []) (hlen : t.toNat * s.length ≤ stream.length)
+    (stream : List Int) (hs : s ≠ []) (hguard : t = 0 ∨ (m : Int) < (p : Int))
+    (hlen : t.toNat * s.length ≤ stream.length)
     (hrange : ∀ v ∈ stream.take (t.toNat * s.length), 0 ≤ v ∧ v < (p : Int)) :
     ∃ shares, ThreshaSrc.random_split p isField s t (m : Int) stream = .ok shares ∧
       ∀ i < m, ∀ h < s.length, (shares.getD i []).getD h 0
         = shareAt (intModP p) (s.getD h 0) (coeffsFor stream t.toNat h) (i + 1) := by
-  refine ⟨_, random_split_src_eq p isField s t m stream hs hlen hrange, ?_⟩
+  refine ⟨_, random_split_src_eq p isField s t m stream hs hguard hlen hrange, ?_⟩
   intro i hi h hh
   rw [Int.toNat_natCast]
   exact randomSplit_entry _ s stream t.toNat m hi hh 0 0
